@@ -26,6 +26,26 @@ def run(F, R, tier):
     for q in walk(body):
         if q.get("k") == "PTupleStruct" and norm(q["res"].get("path", "")).endswith("ComparisonOpExpr::Contains"):
             pat_names |= set(pat_bindings(q))
+    # the arm may delegate to a private function of the same file that does the work: analyse that function's body, with
+    # the parameters that receive the pattern as seeds
+    own = any(c_["m"] == "random_range" for c_ in exprs(body, "MethodCall")) or \
+        any(norm(c_.get("callee", "")) == "searcher::MemmemSearcher::new" for c_ in exprs(body, "Call"))
+    if not own:
+        for c_ in exprs(body, ("Call", "MethodCall")):
+            hh = E.hir_by_dp.get(c_.get("resolved_dp") or c_.get("callee_dp") or "")
+            it_ = E.item_by_dp.get(hh["dp"]) if hh else None
+            if not hh or "body" not in hh or it_ is None or it_.get("vis") == "Public" or \
+                    hh.get("span", "").rsplit(":", 1)[0] != h.get("span", "").rsplit(":", 1)[0]:
+                continue
+            if not any(x_["m"] == "random_range" for x_ in exprs(hh["body"], "MethodCall")):
+                continue
+            seeds = {param_name(hh, i_) for i_, a_ in enumerate(call_args(c_)) if local_name(a_) in pat_names}
+            seeds.discard(None)
+            if seeds:
+                body = hh["body"]
+                pat_names = seeds
+                R.note("the `contains` specialisation lives in the private helper %s (analysed in the context of its call in the Contains arm)" % norm(hh["path"]))
+                break
     changed = True
     while changed:
         changed = False
@@ -100,7 +120,7 @@ def run(F, R, tier):
         for c in exprs(hb["body"], "MethodCall"):
             if c["m"] == "search_in" and "Avx2Searcher" in norm(c["recv"].get("ty", "")):
                 users.append(norm(hb["path"]))
-    ok = len(users) == 2 and all(re.search(r"compile_with_compiler::(ArraySearcher<N>|BoxSearcher) as ast::index_expr::Compare<U>>::compare$", u) for u in users)
+    ok = len(users) == 2 and all(re.search(r"\w+::(ArraySearcher<N>|BoxSearcher) as ast::index_expr::Compare<U>>::compare$", u) for u in users)
     R.check(ok, "R10-gate", CMP, "the AVX2 search itself runs only inside the two gated comparator types", str(users))
     # USE_AVX2 initialiser
     init = [x for x in E.hir_list if "body" in x and norm(x["path"]) == "ast::field_expr::USE_AVX2"]
@@ -178,8 +198,8 @@ def run(F, R, tier):
     # the searcher comparators are pure delegations: one call on the value's bytes, no shortcut of their own
     deleg = [(r"^<searcher::MemmemSearcher as ast::index_expr::Compare<U>>::compare$", "find"),
              (r"Compare<U> for sliceslice::MemchrSearcher\}::compare$", "search_in"),
-             (r"compile_with_compiler::ArraySearcher<N> as ast::index_expr::Compare<U>>::compare$", "search_in"),
-             (r"compile_with_compiler::BoxSearcher as ast::index_expr::Compare<U>>::compare$", "search_in")]
+             (r"\w+::ArraySearcher<N> as ast::index_expr::Compare<U>>::compare$", "search_in"),
+             (r"\w+::BoxSearcher as ast::index_expr::Compare<U>>::compare$", "search_in")]
     for rx, meth in deleg:
         hs = E.hirs(rx)
         if len(hs) != 1:
